@@ -1,8 +1,8 @@
 """C28 Dry runs execute nothing -- first sentence of the property, as contracts on the real scheduler handlers."""
-from pyvc.smt import *
-from pyvc.core import Module
-from pyvc import frame_scan
-from pyvc.result import Result
+from pvc.smt import *
+from pvc.core import Module
+from pvc import frame_scan
+from pvc.result import Result
 
 PROPERTY = "C28"
 S = "redun/scheduler.py"
